@@ -115,6 +115,11 @@ CHECKS = {
 }
 
 CHECKS.update({
+    "C11": (
+        "enumerated slot x wrapper sweep (114 base shapes x every evaluated leaf slot x 12 wrappers: #*/#** sugar and long form, unpack forms with 0/2 arguments, :k v, statement-producing operands) plus Hypothesis-drawn form trees over 56 form kinds, every evaluated leaf a fresh variable; static AST name-presence oracle plus dynamic lookup-logging execution under an all-accepting dummy namespace; in-place minimisation to a construct-path bucket",
+        "A form is either rejected (Hy or Python syntax error) or every operand variable occurs as a loaded Name in the compiled module and - where its evaluation is unconditional - is looked up when the code runs. 3201 enumerated cases and 24 000 (quick) / 400 000 (thorough) drawn trees.",
+        "Conditional positions (branches, short-circuit tails, loop bodies, handlers, uncalled bodies, lazy annotations) carry no run-time requirement; internal-error rejections are C10's subject and only counted here.",
+        "forms", "2/C11"),
     "C28": (
         "generated histories of hy.repr calls (JSON operation lists: repr / arm crash point / re-register / repr under a lowered recursion limit) over models, containers, cycles and fresh test classes whose printers re-enter hy.repr, raise (Exception, BaseException) at chosen steps or swallow nested failures; per-history epilogue and crash-point sweep; stateless reference printer in lock-step + canary invariants after every step + confirmation of every disagreement against a new interpreter process",
         "Each top-level call's text/exception must equal the reference printer's (state scoped to the call); every discrepancy is re-judged against the same single call in a fresh interpreter before it is reported. Crash points are enumerated per object and printer step for up to 8 pairs per history; histories are sampled.",
@@ -255,6 +260,8 @@ def main():
              "kind_free_text": "macro-environment cases and a hy-free reference expansion stepper"},
             {"name": "quasi", "path": "vf/c31_ref.py", "serves_properties": ["C31"],
              "kind_free_text": "JSON quasiquote templates and a reference expander"},
+            {"name": "forms", "path": "vf/c11_forms.py", "serves_properties": ["C11"],
+             "kind_free_text": "form-tree renderer with unique evaluated leaves, lookup-logging namespace"},
             {"name": "literals", "path": "vf/props/c22.py", "serves_properties": ["C22", "C23", "C24"],
              "kind_free_text": "per-module structural generators of literal texts (vf/props/c22.py, c23.py, c24.py) with CPython as the reference evaluator"},
         ],
